@@ -1288,7 +1288,8 @@ in1d = isin
 
 
 # ---------------------------------------------------------------- shape ops
-def repeat(v, n, axis=None):
+def repeat(v, repeats=None, axis=None, n=None):
+    n = repeats if repeats is not None else n
     if _is_arraylike(v):
         return NDArr(_np.repeat(_obj(v), _b.int(n), axis=axis))
     return full(_b.int(n), v)
